@@ -24,6 +24,7 @@ import (
 	"hash/fnv"
 	"math/rand/v2"
 	"os"
+	"runtime"
 	"sort"
 	"strings"
 	"sync"
@@ -47,6 +48,12 @@ const (
 	c03PlanBump        = 3 // Install a higher authority on the running runtime
 
 	c03Variants = 8
+
+	// c03AssertQuiescentRetry turns the quiescent "exact retry of an acknowledged
+	// command must be answered" observation into a violation. It is off because
+	// the designed C03 oracle treats every error return as legal (safety only);
+	// the observation is always counted in evidence.
+	c03AssertQuiescentRetry = false
 )
 
 type c03In struct {
@@ -57,6 +64,7 @@ type c03In struct {
 	N           int    `json:"n"`
 	Hash        uint64 `json:"h"`
 	Gen         int    `json:"gen"`
+	Term        uint64 `json:"term,omitempty"`
 	AuthChanged bool   `json:"ac,omitempty"`
 	Phase       string `json:"ph,omitempty"`
 }
@@ -303,6 +311,7 @@ type c03Hist struct {
 	rec      *verifkit.Recorder
 	reMu     sync.Mutex
 	bumps    []atomic.Int64 // per channel: authority-changing installs attempted
+	ready    []atomic.Bool  // per channel: latest Install for the current generation succeeded
 	dead     atomic.Bool
 }
 
@@ -330,7 +339,20 @@ func (h *c03Hist) install(client int, l *c03Leader, c int, changed bool) bool {
 		}).(c03Out)
 		h.r.Count("install."+out.Class, 1)
 		if out.OK {
+			h.ready[c].Store(true)
 			return true
+		}
+		h.ready[c].Store(false)
+		if os.Getenv("C03_DEBUG") != "" {
+			states := map[string]any{}
+			for node, st := range h.cluster.raw {
+				ld, err := st.Load(context.Background(), replication.LoadBatch{Items: []replication.LoadRequest{{ChannelKey: h.chans[c].key, ChannelID: h.chans[c].id}}})
+				if err == nil && len(ld.Items) == 1 {
+					s := ld.Items[0].State
+					states[fmt.Sprint(node)] = fmt.Sprintf("leo=%d committed=%d tail(term=%d fence=%d cmd=%x base=%d last=%d) err=%v", s.LEO, s.Committed, s.Manifest.LeaderTerm, s.Manifest.FenceVersion, s.Manifest.CommandID[28:], s.Manifest.BaseOffset, s.Manifest.LastOffset, ld.Items[0].Err)
+				}
+			}
+			fmt.Fprintf(os.Stderr, "C03DEBUG case=%d ch=%d attempt=%d gen=%d changed=%v err=%s want=%+v states=%v\nhistory=%s\n", h.caseIdx, c, attempt, l.gen, changed, out.Err, l.auth[c], states, strings.Join(c03Compact(h.rec.Ops(), c), "\n  "))
 		}
 	}
 	h.r.Count("install.gave_up", 1)
@@ -353,7 +375,7 @@ func (h *c03Hist) reinstall(client int, kind int) {
 	}
 	var l *c03Leader
 	if kind == c03PlanBump {
-		l = &c03Leader{rt: old.rt, log: old.log, gen: old.gen + 1, auth: auth}
+		l = &c03Leader{rt: old.rt, log: old.log, gen: old.gen + 1, auth: auth, ctx: old.ctx, cancel: old.cancel, inflight: old.inflight}
 		h.cluster.leader.Store(l)
 		h.r.Count("reinstall.bump_live", 1)
 	} else {
@@ -363,6 +385,18 @@ func (h *c03Hist) reinstall(client int, kind int) {
 		if err != nil {
 			h.r.Count("leader_close_error", 1)
 		}
+		// Runtime.Close has returned: every accepted piece of work is joined, so
+		// in-flight Commit calls only need CPU to return. Give them a moment,
+		// then cancel their contexts; a Commit still blocked at that point was
+		// stranded by the closed runtime (counted as evidence; C04 owns the
+		// "admitted work reaches a terminal result" clause).
+		for i := 0; i < 200 && old.inflight.Load() > 0; i++ {
+			time.Sleep(time.Millisecond)
+		}
+		if n := old.inflight.Load(); n > 0 {
+			h.r.Count("commits_still_blocked_200ms_after_close_returned", int(n))
+		}
+		old.cancel()
 		var serr error
 		l, serr = h.cluster.startLeader(old.gen+1, auth)
 		if serr != nil {
@@ -383,12 +417,21 @@ func (h *c03Hist) reinstall(client int, kind int) {
 
 func (h *c03Hist) commit(client int, op c03PlanOp, phase string) c03Out {
 	l := h.cluster.leader.Load()
+	// A closed leader generation (its context is cancelled after Runtime.Close
+	// returned) is about to be replaced: wait for the new generation instead of
+	// burning planned operations on instantly-cancelled calls.
+	for i := 0; l.ctx.Err() != nil && i < 200000 && !h.dead.Load(); i++ {
+		time.Sleep(50 * time.Microsecond)
+		l = h.cluster.leader.Load()
+	}
 	auth := l.auth[op.Chan]
 	recs := c03Records(h.caseSeed, op.Chan, op.Cmd, op.Variant, auth.ChannelEpoch)
 	cmd := c03CommandID(h.caseSeed, op.Chan, op.Cmd)
-	in := c03In{Kind: c03KindCommit, Chan: op.Chan, Cmd: op.Cmd, Variant: op.Variant, N: len(recs), Hash: c03ContentHash(recs), Gen: l.gen, Phase: phase}
+	in := c03In{Kind: c03KindCommit, Chan: op.Chan, Cmd: op.Cmd, Variant: op.Variant, N: len(recs), Hash: c03ContentHash(recs), Gen: l.gen, Term: auth.LeaderTerm, Phase: phase}
 	return h.rec.Do(client, in, func() any {
-		ctx := context.Background()
+		ctx := l.ctx
+		l.inflight.Add(1)
+		defer l.inflight.Add(-1)
 		if op.CtxMicros > 0 {
 			var cancel context.CancelFunc
 			ctx, cancel = context.WithTimeout(ctx, time.Duration(op.CtxMicros)*time.Microsecond)
@@ -450,7 +493,7 @@ func c03RunCase(r *verifkit.Run, caseIdx int) {
 		r.Inconclusive(fmt.Sprintf("case %d: cluster construction failed: %v", caseIdx, err))
 		return
 	}
-	h := &c03Hist{r: r, caseIdx: caseIdx, caseSeed: caseSeed, p: p, cluster: cluster, faults: faults, rec: verifkit.NewRecorder(), bumps: make([]atomic.Int64, p.nChan)}
+	h := &c03Hist{r: r, caseIdx: caseIdx, caseSeed: caseSeed, p: p, cluster: cluster, faults: faults, rec: verifkit.NewRecorder(), bumps: make([]atomic.Int64, p.nChan), ready: make([]atomic.Bool, p.nChan)}
 	auth := make([]replication.AuthorityID, p.nChan)
 	for c := 0; c < p.nChan; c++ {
 		name := fmt.Sprintf("c03-%d-%d", caseIdx, c)
@@ -501,22 +544,45 @@ func c03RunCase(r *verifkit.Run, caseIdx int) {
 		return
 	}
 
-	// Quiescent phase 1: with every fault off, retry (exactly) every command
-	// acknowledged under the authority that is still installed.
+	// Quiescent phase 1 (all faults off). First retry every (command, content)
+	// that only ever produced ambiguous errors, so that a legitimately pending
+	// proposal (by design it blocks the channel until its exact retry) is
+	// resolved; then retry (exactly) every acknowledged command.
 	ops := h.rec.Ops()
-	cur := cluster.leader.Load()
 	type ackKey struct{ c, cmd int }
+	type varKey struct{ c, cmd, v int }
 	acked := map[ackKey]c03In{}
+	ambiguousOnly := map[varKey]bool{}
+	var ambOrder []varKey
 	for _, op := range ops {
 		in, out := op.Input.(c03In), op.Output.(c03Out)
-		if in.Kind == c03KindCommit && out.OK {
+		if in.Kind != c03KindCommit {
+			continue
+		}
+		if out.OK {
 			if _, ok := acked[ackKey{in.Chan, in.Cmd}]; !ok {
 				acked[ackKey{in.Chan, in.Cmd}] = in
 			}
+		} else if !c03Definite(out.Class) {
+			k := varKey{in.Chan, in.Cmd, in.Variant}
+			if !ambiguousOnly[k] {
+				ambiguousOnly[k] = true
+				ambOrder = append(ambOrder, k)
+			}
 		}
 	}
-	genAuth := map[int][]replication.AuthorityID{}
-	_ = genAuth
+	for round := 0; round < 2; round++ {
+		for _, k := range ambOrder {
+			if _, ok := acked[ackKey{k.c, k.cmd}]; ok {
+				continue
+			}
+			out := h.commit(0, c03PlanOp{Kind: c03PlanCommit, Chan: k.c, Cmd: k.cmd, Variant: k.v}, "final-unacked")
+			r.Count("final_unacked_retry."+out.Class, 1)
+			if out.OK {
+				acked[ackKey{k.c, k.cmd}] = c03In{Chan: k.c, Cmd: k.cmd, Variant: k.v, Term: cluster.leader.Load().auth[k.c].LeaderTerm}
+			}
+		}
+	}
 	keys := make([]ackKey, 0, len(acked))
 	for k := range acked {
 		keys = append(keys, k)
@@ -527,16 +593,32 @@ func c03RunCase(r *verifkit.Run, caseIdx int) {
 		}
 		return keys[i].cmd < keys[j].cmd
 	})
-	finalRetryErr := map[string]int{}
+	wedged := map[int][]string{}
 	for _, k := range keys {
 		in := acked[k]
 		out := h.commit(0, c03PlanOp{Kind: c03PlanCommit, Chan: k.c, Cmd: k.cmd, Variant: in.Variant}, "final")
-		r.Count("final_retry."+out.Class, 1)
-		if !out.OK {
-			finalRetryErr[out.Class]++
+		sameAuth := in.Term == cluster.leader.Load().auth[k.c].LeaderTerm && h.ready[k.c].Load()
+		if sameAuth {
+			r.Count("final_retry_same_authority."+out.Class, 1)
+			if !out.OK {
+				wedged[k.c] = append(wedged[k.c], fmt.Sprintf("cmd=%d -> %s", k.cmd, out.Class))
+			}
+		} else {
+			r.Count("final_retry_other_authority_or_not_installed."+out.Class, 1)
 		}
 	}
-	_ = cur
+	// Liveness-flavoured observation (NOT part of the C03 oracle, whose model
+	// allows any call to fail): with every fault off, the channel installed and
+	// the authority unchanged since the acknowledgement, an exact retry of an
+	// acknowledged command is still rejected. See c03AssertQuiescentRetry.
+	for c, list := range wedged {
+		r.Count("channels_with_quiescent_exact_retry_rejected", 1)
+		if c03AssertQuiescentRetry {
+			r.Violation("quiescent-exact-retry-of-acknowledged-command-rejected", map[string]any{"case": caseIdx, "desc": desc, "channel": c, "rejected": list, "history": c03Compact(h.rec.Ops(), c)})
+		} else if os.Getenv("C03_DEBUG") != "" {
+			fmt.Fprintf(os.Stderr, "C03WEDGE case=%d ch=%d rejected=%v\nhistory=%s\n", caseIdx, c, list, strings.Join(c03Compact(h.rec.Ops(), c), "\n  "))
+		}
+	}
 
 	// Quiescent phase 2: join all runtime work, then read the leader's store.
 	closeErrs := cluster.closeAll()
@@ -993,15 +1075,35 @@ func TestVerifC03(t *testing.T) {
 	r.Assume("Link faults are switched off while Install runs (unreachable voters during Install are C01's subject).")
 	r.Assume("Error classes backpressured/not_ready/stale_meta/write_fenced/invalid_config are admission rejections returned by quorumLog.Commit before a proposal is sealed; they are modelled as having no effect. All other errors may have the effect of one fresh append at any later time.")
 	r.Assume("Retries under a changed authority may be rejected; if acknowledged they must return the stored range.")
-	n := r.N(260, 3600)
+	n := r.N(260, 2200)
 	for i := 0; i < n; i++ {
 		if r.Skip(i) {
 			continue
 		}
 		i := i
-		if !verifkit.Watchdog(5*time.Minute, func() { c03RunCase(r, i) }) {
+		t0 := time.Now()
+		if os.Getenv("C03_DEBUG") != "" {
+			defer func(i int) {}(i)
+		}
+		ok := verifkit.Watchdog(c03WatchdogDur(), func() { c03RunCase(r, i) })
+		if os.Getenv("C03_DEBUG") != "" {
+			fmt.Fprintf(os.Stderr, "C03TIME case=%d ms=%d\n", i, time.Since(t0).Milliseconds())
+		}
+		if !ok {
 			r.Inconclusive(fmt.Sprintf("case %d: watchdog expired (history did not finish in 5 min)", i))
+			buf := make([]byte, 4<<20)
+			buf = buf[:runtime.Stack(buf, true)]
+			fmt.Fprintf(os.Stderr, "C03 WATCHDOG goroutine dump:\n%s\n", buf)
 			return
 		}
 	}
+}
+
+func c03WatchdogDur() time.Duration {
+	if v := os.Getenv("C03_WATCHDOG_S"); v != "" {
+		if d, err := time.ParseDuration(v + "s"); err == nil {
+			return d
+		}
+	}
+	return 5 * time.Minute
 }
